@@ -111,6 +111,9 @@ def verify_function(prop, contract, callees, lib, timeout_hint=None, hooks=None)
             ctx.cdivision = True
         ctx.strict_defined = bool(getattr(contract, "strict_defined", False))
         ctx.inline = set((hooks or {}).get("inline", ()))
+        from . import symexec as _sx
+        _sx.CFG_MODE[0] = bool(getattr(contract, "cfg_mode", False))
+        ctx.calls_may_raise = bool(getattr(contract, "calls_may_raise", False))
         try:
             module_env(fs, ex)
             path = Path()
@@ -150,9 +153,14 @@ def verify_function(prop, contract, callees, lib, timeout_hint=None, hooks=None)
                     n_ret += 1
                     res.ret_paths = getattr(res, "ret_paths", []) + [(ctx.fnshort, list(p.pc))]
                     line = getattr(p, "ret_line", fs.end_lineno)
+                    # postconditions: a parameter name denotes the value the caller passed (entry value) - a body that rebinds a
+                    # parameter cannot thereby change what the contract is about.  Objects mutated through the parameter
+                    # (self, functional update of fields) denote their final state; final(x) gives a rebound parameter's last value.
+                    entry = {n_: v_ for n_, v_ in ex.old_env.items() if n_ in names and not isinstance(v_, Obj)}
+                    ex.final_env = dict(p.env)
                     for label, e in contract.ensures.items():
                         try:
-                            g = ex.spec(e, p, {"result": p.ret})
+                            g = ex.spec(e, p, {**entry, "result": p.ret})
                         except Unsupported as err:
                             res.clause_errors = getattr(res, "clause_errors", []) + [
                                 f"{ctx.fnshort}: clause '{label}' cannot be evaluated on the path returning at line {line}: {err}"]
